@@ -45,7 +45,7 @@ Definition keys_present (t : wtab) (v : view) (d : decoration) : bool :=
 (* the statements' domain (DESIGN 13.7, 13.10) *)
 Definition in_domain (t : wtab) (d : decoration) (v : view) : bool :=
   (1 <=? v_ncols v)
-  && wf_viewb v
+  && (length (v_align v) =? S (v_ncols v))   (* rows may be longer than the column count (D21): c03_refines_any_rows *)
   && ((completeb d && glyphs_w1b (Wof t) d) || noboxb d)
   && forallb (cell_okb (Wof t)) (all_cells v)
   && forallb (width_coversb (Wof t)) (all_cells v).
@@ -74,8 +74,21 @@ Definition geometry_ok (t : wtab) (d : decoration) (v : view) : bool :=
 (* C03 on the implementation's own output: the bytes are the flattened
    layout computed from the input alone, and that layout is a rectangle with
    fitted columns, aligned dividers and the documented line pattern. *)
+(* What Populate promises (DESIGN section 6 C03: "a custom one after its defaults
+   are filled in"), judged on the decoration the library handed back, without
+   the model: no glyph left empty, nothing the caller had set changed. *)
+Definition populate_ok (pre : option decoration) (d : decoration) : bool :=
+  match pre with
+  | None => true
+  | Some p =>
+      completeb d
+      && Bool.eqb (d_boxless p) (d_boxless d)
+      && list_eqb (fun a b => nilb a || bytes_eqb a b) (d_fields p) (d_fields d)
+  end.
+
 Definition C03_ok1 (t : wtab) (v : view) (dc : dcase) : bool :=
-  let '(_, d, obs) := dc in
+  let '(pre, d, obs) := dc in
+  populate_ok pre d &&
   if in_domain t d v then
     match obs with
     | Ok out => bytes_eqb out (render_spec (Wof t) d v) && geometry_ok t d v
